@@ -166,3 +166,156 @@ def ir_enum_for(ir, values):
 def ir_union_for(ir, members):
     m = [k for k, (kind, d) in ir.types.items() if kind == "union" and {f["fieldName"] for f in d["union"]} == set(members)]
     return m[0] if len(m) == 1 else None
+
+
+def _syms(v, out):
+    if isinstance(v, tuple):
+        if v and v[0] == "sym":
+            out.add(v[1])
+        for x in v[1:]:
+            if isinstance(x, (tuple, list)):
+                for y in (x if isinstance(x, list) else [x]):
+                    _syms(y, out)
+    elif isinstance(v, list):
+        for y in v:
+            _syms(y, out)
+    return out
+
+
+def structural_eq(ct, F, adt_path):
+    """None if `<adt as PartialEq>::eq` is structural over the variants (different variants unequal, same variant equal iff
+    the payloads are — decided by constant propagation over every pair of variants), else a witness string."""
+    from . import minterp
+    eqs = [b for b in ct.bodies if b.trait == "core::cmp::PartialEq" and ty_adt(b.self_ty) == adt_path and b.name == "eq"]
+    if len(eqs) != 1:
+        return f"{adt_path} has {len(eqs)} PartialEq::eq impls"
+    a = F.adt(adt_path)
+    I = minterp.Interp(F, ct)
+    nv = len(a["variants"])
+    for i in range(nv):
+        for j in range(nv):
+            va = minterp.adt(adt_path, i, [("sym", f"a{k}") for k in range(len(a["variants"][i]["fields"]))])
+            vb = minterp.adt(adt_path, j, [("sym", f"b{k}") for k in range(len(a["variants"][j]["fields"]))])
+            try:
+                r = I.run(eqs[0], [va, vb])
+            except minterp.Unsupported as e:
+                return f"eq({a['variants'][i]['name']}, {a['variants'][j]['name']}) left the analysable fragment: {e}"
+            if i != j:
+                if r is not False:
+                    return f"eq({a['variants'][i]['name']}, {a['variants'][j]['name']}) = {minterp.show(I, r)} (must be false)"
+            elif not a["variants"][i]["fields"]:
+                if r is not True:
+                    return f"eq({a['variants'][i]['name']}, same) = {minterp.show(I, r)} (must be true)"
+            else:
+                sy = _syms(r, set())
+                if not (isinstance(r, tuple) and r and r[0] == "call" and "PartialEq" in r[1] and {"a0", "b0"} <= sy):
+                    return f"eq of two {a['variants'][i]['name']} values = {minterp.show(I, r) if not isinstance(r, bool) else r}: must compare the payloads"
+    return None
+
+
+def injective_name_fn(ct, F, fn_body, adt_path):
+    """None if fn(&Variant) -> &str maps different values to different strings (payload-less variants: distinct constants;
+    payload variants: a payload-derived result), else a witness."""
+    from . import minterp
+    a = F.adt(adt_path)
+    I = minterp.Interp(F, ct)
+    seen = {}
+    for i, v in enumerate(a["variants"]):
+        val = minterp.adt(adt_path, i, [("sym", f"p{k}") for k in range(len(v["fields"]))])
+        try:
+            r = I.run(fn_body, [val])
+        except minterp.Unsupported as e:
+            return f"{fn_body.name}({v['name']}) left the analysable fragment: {e}"
+        if v["fields"]:
+            if not _syms(r, set()):
+                return f"{fn_body.name}({v['name']}(..)) = {r!r} for every payload: different {v['name']} values are indistinguishable"
+        else:
+            if not isinstance(r, str) or r in seen:
+                return f"{fn_body.name}({v['name']}) = {r!r} collides or is not a constant"
+            seen[r] = v["name"]
+    return None
+
+
+def union_agreement(u, ct, F):
+    """Member-first order of a generated union's visit_map: after the member's value, the "type" entry is read as a Variant_
+    and the document is accepted only on the 'equal' edge of a comparison between the member's variant and the type's variant
+    that distinguishes all values (structural PartialEq on Variant_, or an injective naming function on both sides).
+    Returns (instances, problems)."""
+    b = u.visit_map
+    if b is None or u.variant_adt is None:
+        return [], []
+    a = F.adt(u.variant_adt)
+    if a is None or not a["variants"]:
+        return [], []
+    cfg = CFG(b)
+    vt = dt.value_tracer(b)
+    tkeys = [(bb, t) for bb, t in b.calls() if t["call"]["name"] == "next_key" and any((ty_adt(x) or "").endswith("::UnionTypeField_") for x in t["call"].get("substs") or [])]
+    fkeys = [(bb, t) for bb, t in b.calls() if t["call"]["name"] == "next_key" and any((ty_adt(x) or "").endswith("::UnionField_") for x in t["call"].get("substs") or [])]
+    nvs = [(bb, t) for bb, t in b.calls() if t["call"]["name"] == "next_value" and any(ty_adt(x) == u.variant_adt for x in t["call"].get("substs") or [])
+           and any(cfg.dominates(kb, bb) for kb, _ in tkeys)]
+    problems, inst = [], []
+    if len(tkeys) != 1 or len(nvs) != 1 or not fkeys:
+        return [], [("anchor", f"member-first order: expected one `type` key read followed by one Variant_ read, found {len(tkeys)} / {len(nvs)}")]
+    nbb, nt = nvs[0]
+    cmps = [(bb, t) for bb, t in b.calls() if t["call"]["def"] in ("core::cmp::PartialEq::ne", "core::cmp::PartialEq::eq") and cfg.dominates(nbb, bb)]
+    oks = dt.ok_return_blocks(b)
+    good = None
+    why = "no comparison between the member's variant and the `type` value guards the accepted path"
+    for cbb, ct_ in cmps:
+        # the accepted path lies on the 'equal' edge only: no Ok return is reachable from the 'different' edge
+        sw = ct_.get("target")
+        atom = dt.switch_atom(b, sw) if sw is not None and "switch" in b.blocks[sw]["t"] else None
+        if not atom or atom[0] != "call" or atom[1] is not ct_:
+            why = "the result of the comparison is not branched on"
+            continue
+        st_ = b.blocks[sw]["t"]
+        zero = dict((v, tg) for v, tg in st_["targets"]).get(0)
+        if zero is None:
+            why = "the result of the comparison is branched on in an unusual way"
+            continue
+        true_t, false_t = st_["otherwise"], zero
+        diff_t, same_t = (true_t, false_t) if ct_["call"]["name"] == "ne" else (false_t, true_t)
+        okbbs = {okbb for okbb, _, _s in oks}
+        if okbbs & set(cfg.reachable_from(diff_t)) or not okbbs & set(cfg.reachable_from(same_t)):
+            why = "the document is still accepted when the comparison reports a difference"
+            continue
+        st = strip_refs((ct_["call"].get("substs") or [{}])[0])
+        ops = ct_["args"][:2]
+        def from_type(op):
+            return dt.derives_from_call(b, op, nbb, vt)
+        def from_member(op):
+            return any(dt.derives_from_call(b, op, kb, vt) for kb, _ in fkeys)
+        if ty_adt(st) == u.variant_adt:
+            if not ((from_type(ops[0]) and from_member(ops[1])) or (from_type(ops[1]) and from_member(ops[0]))):
+                why = "the compared Variant_ values are not the member's variant and the `type` value"
+                continue
+            w = structural_eq(ct, F, u.variant_adt)
+            if w:
+                why = f"Variant_'s equality does not distinguish all values: {w}"
+                continue
+            good = "Variant_ == Variant_ (structural equality, all variant pairs evaluated)"
+        else:
+            # comparison of names: both operands are results of one local naming function applied to the two values
+            tr = Tracer(b, through_calls=False)
+            gcalls = []
+            for op in ops:
+                cs = [s_ for s_ in (x if x[0] != "field" else x[1] for x in tr.sources(op)) if s_[0] == "call"]
+                gcalls.append([b.blocks[s_[1]]["t"] for s_ in cs])
+            if not all(len(g) == 1 and g[0]["call"].get("local") for g in gcalls) or gcalls[0][0]["call"].get("id") != gcalls[1][0]["call"].get("id"):
+                why = f"the comparison is on {tystr(st)} values that are not the two variants themselves"
+                continue
+            g0, g1 = gcalls[0][0], gcalls[1][0]
+            if not ((from_type(g0["args"][0]) and from_member(g1["args"][0])) or (from_type(g1["args"][0]) and from_member(g0["args"][0]))):
+                why = "the compared names are not those of the member's variant and of the `type` value"
+                continue
+            gb = ct.body(g0["call"]["id"])
+            w = injective_name_fn(ct, F, gb, u.variant_adt) if gb is not None else "naming function not found"
+            if w:
+                why = f"type and member are compared through `{g0['call']['name']}`, which does not distinguish all variants: {w}"
+                continue
+            good = f"{g0['call']['name']}(member) == {g0['call']['name']}(type) with an injective naming function"
+    if good:
+        inst.append(good)
+    else:
+        problems.append(("member-first-agreement", why))
+    return inst, problems
